@@ -279,6 +279,7 @@ def oracle(prev, cur, pats):
     # entries that appeared while the record of their directory stayed the same: a stored filtered listing does not have them
     hints["added_unseen"] = [k for k in D if k not in L0 and parent_unchanged(k)] if pats else []
     hints["removed"] = [k for k in D if k not in L1]
+    hints["removed_parent_unchanged"] = [k for k in D if k not in L1 and parent_of(k) in L1 and parent_unchanged(k)]
     hints["root_changed"] = L0.get("") != L1.get("")
     dangling_dirs = set()
     for R in (prev[1], cur[1]):
@@ -629,28 +630,38 @@ def judge(chk, sc, records, idx):
     if r0["rc"] != 0 or not (r0["ranT"] and r0["ranS"]):
         chk.violation("initial-build", "the first build failed or did not run both commands (rc=%s)" % r0["rc"], rp(r0), found_input=True, broken="c12 harness expectation")
         return 0
-    unseen = {}      # directory -> names that appeared while its record stayed the same (finding D3: not in the stored listing)
+    # finding D3 bookkeeping: per directory, the names its STORED filtered listing is known to be wrong about
+    unseen = {}      # names that appeared while the directory's record stayed the same (not in the stored listing)
+    ghosts = {}      # names that went away while the directory's record stayed the same (still in the stored listing)
+    def split(k):
+        return tuple(k.rsplit("/", 1)) if "/" in k else ("", k)
     for rec in records[1:]:
         unlisted = False
         fam = sc.get("family", "core")
         h = rec["hints"]
-        # the directory's own record changed: it is listed again, and entries it did not have before come to light now
-        relisted = [k for k in h["changed"] if unseen.get(k)] + ([""] if h["root_changed"] and unseen.get("") else [])
-        for k in h["changed"]:
+        def stale_in(table, k):
+            parts = k.split("/")
+            return any(parts[j] in table.get("/".join(parts[:j]), ()) for j in range(len(parts)))
+        before = {d: set(v) for d, v in unseen.items()}
+        # the directory's own record changed: it is listed again; what the stored listing had wrong comes to light now
+        redone = list(h["changed"]) + ([""] if h["root_changed"] else [])
+        relisted = [k for k in redone if unseen.get(k) or ghosts.get(k)]
+        for k in redone:
             unseen.pop(k, None)
-        if h["root_changed"]:
-            unseen.pop("", None)
+            ghosts.pop(k, None)
         for k in h["added_unseen"]:
-            par, name = (k.rsplit("/", 1) if "/" in k else ("", k))
+            par, name = split(k)
             unseen.setdefault(par, set()).add(name)
         def stale(k):
-            parts = k.split("/")
-            return any(parts[j] in unseen.get("/".join(parts[:j]), ()) for j in range(len(parts)))
-        cats = {k: (c or ("stale" if stale(k) else None)) for k, c in h["cat"].items()}
+            # an entry that was never in the stored listing: changes beneath it, and its removal, cannot be seen
+            return stale_in(before if k in h["removed"] else unseen, k)
+        cats = {k: (c or ("stale" if (sc["pats"] and stale(k)) else None)) for k, c in h["cat"].items()}
         rec["cats"] = cats
         for k in h["removed"]:
-            par, name = (k.rsplit("/", 1) if "/" in k else ("", k))
+            par, name = split(k)
             unseen.get(par, set()).discard(name)
+            if sc["pats"] and k in h["removed_parent_unchanged"]:
+                ghosts.setdefault(par, set()).add(name)
         key = (fam, bool(sc["pats"]), tuple(rec["labels"]), rec["ranT"], rec["ranS"])
         chk.count(key if (rec["must_T"] or rec["must_S"]) else None)
         if rec["rc"] != 0:
